@@ -16,19 +16,19 @@ type VerifNode struct {
 
 // VerifDump returns the tree in pre-order, whether every parent link is consistent
 // (root.parent == nil, child.parent == node), the size field and the version counter.
-// The walk gives up (parentsOK = false) after limit nodes so that a corrupted, cyclic
-// structure cannot hang the caller.
+// The walk gives up (parentsOK = false) after limit nodes or below depth 4096 so that a
+// corrupted, cyclic structure can neither hang the caller nor overflow the stack.
 func (m *Map) VerifDump(limit int) (nodes []VerifNode, parentsOK bool, size int, version int) {
 	parentsOK = true
 	if m.root != nil && m.root.parent != nil {
 		parentsOK = false
 	}
-	var walk func(e *Entry)
-	walk = func(e *Entry) {
+	var walk func(e *Entry, depth int)
+	walk = func(e *Entry, depth int) {
 		if e == nil {
 			return
 		}
-		if len(nodes) >= limit {
+		if len(nodes) >= limit || depth > 4096 {
 			parentsOK = false
 			return
 		}
@@ -45,10 +45,10 @@ func (m *Map) VerifDump(limit int) (nodes []VerifNode, parentsOK bool, size int,
 		if e.right != nil && e.right.parent != e {
 			parentsOK = false
 		}
-		walk(e.left)
-		walk(e.right)
+		walk(e.left, depth+1)
+		walk(e.right, depth+1)
 	}
-	walk(m.root)
+	walk(m.root, 0)
 	return nodes, parentsOK, m.size, m.version
 }
 
